@@ -66,6 +66,50 @@ def ret_value(v=None):
     return v
 
 
+def _slow_box(v, sec):
+    time.sleep(sec)
+    return SlowBox(v, sec)
+
+
+class SlowBox:
+    """A value whose reconstruction from its pickle takes `sec` seconds (a heavy result, seen from the receiving side)."""
+    def __init__(self, v, sec=0.8):
+        self.v, self.sec = v, sec
+
+    def __reduce__(self):
+        return (_slow_box, (self.v, self.sec))
+
+    def __eq__(self, other):
+        return isinstance(other, SlowBox) and other.v == self.v
+
+    def __hash__(self):
+        return hash(self.v)
+
+    def __repr__(self):
+        return 'SlowBox(%r)' % (self.v,)
+
+
+def _slow_err(v, sec):
+    time.sleep(sec)
+    return SlowError(v, sec)
+
+
+class SlowError(Exception):
+    def __init__(self, v, sec=0.8):
+        super().__init__(v)
+        self.v, self.sec = v, sec
+
+    def __reduce__(self):
+        return (_slow_err, (self.v, self.sec))
+
+
+def ret_slow(v=42, sec=0.8, fail=False):
+    """Returns / raises something that is slow to rebuild on the receiving side."""
+    if fail:
+        raise SlowError(v, sec)
+    return SlowBox(v, sec)
+
+
 def echo(*a, **k):
     return (a, k)
 
@@ -226,6 +270,8 @@ def restart_target(uid, d2='X', *, dk=0, kind='ok'):
         raise CustomError('boom', uid)
     if kind == 'slow':
         time.sleep(0.4)
+    if kind == 'slowbox':
+        return [uid, d2, dk, SlowBox(uid, 0.7)]
     if kind == 'swallow':
         while True:
             try:
